@@ -66,7 +66,7 @@ def run(ctx):
              theorem="C17.maps_consistent is a theorem about the model's three association lists; the implementation's "
                      "maps differ from them on this history")
     if ctx.harness("./cmd/c17", name="race", race=True, overlay=OVERLAY):
-        ctx.impl_oracle("race", {"quick": 16, "thorough": 300}, name="race",
+        ctx.impl_oracle("race", {"quick": 24, "thorough": 300}, name="race",
                         label="goroutines calling every method concurrently under -race; judge = conclusion of "
                               "C17.concurrent_registry_linearizable / notify_delivers_snapshot (a linearization must "
                               "explain all observations and the final maps), BatchMode balance, no duplicate delivery, "
